@@ -46,67 +46,67 @@ func init() {
 	}
 	checks["C02"] = &checkDef{
 		run:         func(c *Ctx) { premises(c); runR_C02(c) },
-		explanation: "Engine R on the equal plugin: every accepted abstract path's residual is checked for (R6) two-sidedness — every comparison and helper/method call pairs mirror-image components of the two values, nil tests come in mirrored pairs; (R19) every field of every inlined struct takes part on both sides; (R7) every dereference, pointer field read, cross-indexing and looked-up map value is guarded (non-nil / equal length / ok) in the guard set; (R10) no write through an argument; curried and binary forms emit the same body; the user's Equal method is consulted before `==` is chosen (decision order); library comparisons that ignore nil-ness are flagged. G9 tabulates canEqual over go/types kinds. Not decided: extensional equality, reflexivity/symmetry/transitivity as semantic facts, NaN/cycles (excluded), shapes beyond the bounds. Since wave 6: library calls that are blind to nil-ness (bytes.Equal) are leaves only together with a nil-ness agreement test (R-leaf); canEqual refuses a type (or a component, also behind an alias) that has its own Equal method (G9). Premises shared by every property about emitted code (Engine G, wave 8): a successful run has passed Print or Delete for every initial package (G10, G31: no package is skipped), and a call is handled by the plugin whose current prefix is the longest match (G8: prefixes are set before the plugins are sorted; first match over the sorted list).",
+		explanation: "Engine R on the equal plugin: every accepted abstract path's residual is checked for (R6) two-sidedness — every comparison and helper/method call pairs mirror-image components of the two values, nil tests come in mirrored pairs; (R19) every field of every inlined struct takes part on both sides; (R7) every dereference, pointer field read, cross-indexing and looked-up map value is guarded (non-nil / equal length / ok) in the guard set; (R10) no write through an argument; curried and binary forms emit the same body; the user's Equal method is consulted before `==` is chosen (decision order); library comparisons that ignore nil-ness are flagged. G9 tabulates canEqual over go/types kinds. Not decided: extensional equality, reflexivity/symmetry/transitivity as semantic facts, NaN/cycles (excluded), shapes beyond the bounds. Since wave 6: library calls that are blind to nil-ness (bytes.Equal) are leaves only together with a nil-ness agreement test (R-leaf); canEqual refuses a type (or a component, also behind an alias) that has its own Equal method (G9). Premises shared by every property about emitted code (Engine G, wave 8): a successful run has passed Print or Delete for every initial package (G10, G31: no package is skipped), and the plugins are ordered by the prefixes of this run (G8: every prefix is set before the plugins are constructed and sorted).",
 		assumptions: commonAssumptions,
 		technique:   "abstract interpretation of the equal generator into residual programs + AST/guard-set (dominance) analyses of the residuals; predicate tabulation",
 	}
 	checks["C03"] = &checkDef{
 		run:         func(c *Ctx) { premises(c); runR_C03(c) },
-		explanation: "Engine R on the compare plugin: every residual is (R8) evaluated abstractly over the finite orderings of the operand pairs it mentions (pair ∈ {<,=,>}, nil test ∈ {nil,non-nil}, length pair ∈ {<,=,>}): results stay in {-1,0,+1}, 0 exactly when every examined component is equal, a single differing component decides in its natural direction, nil orders first, and swapping the values negates the result on every row; (R6) helper/method calls and comparisons pair mirror components in (this, that) order; (R19) every field takes part; (R7) guards; nil-ness of every nilable operand is examined (agreement with Equal); no numeric conversion of operands; (R16) maps are traversed through sort(keys(m)) only. Not decided: transitivity across helper boundaries, user Compare methods, stdlib Compare functions. Since wave 6: the nil-blind library-leaf rule (bytes.Compare) is part of this check. Premises shared by every property about emitted code (Engine G, wave 8): a successful run has passed Print or Delete for every initial package (G10, G31: no package is skipped), and a call is handled by the plugin whose current prefix is the longest match (G8: prefixes are set before the plugins are sorted; first match over the sorted list).",
+		explanation: "Engine R on the compare plugin: every residual is (R8) evaluated abstractly over the finite orderings of the operand pairs it mentions (pair ∈ {<,=,>}, nil test ∈ {nil,non-nil}, length pair ∈ {<,=,>}): results stay in {-1,0,+1}, 0 exactly when every examined component is equal, a single differing component decides in its natural direction, nil orders first, and swapping the values negates the result on every row; (R6) helper/method calls and comparisons pair mirror components in (this, that) order; (R19) every field takes part; (R7) guards; nil-ness of every nilable operand is examined (agreement with Equal); no numeric conversion of operands; (R16) maps are traversed through sort(keys(m)) only. Not decided: transitivity across helper boundaries, user Compare methods, stdlib Compare functions. Since wave 6: the nil-blind library-leaf rule (bytes.Compare) is part of this check. Premises shared by every property about emitted code (Engine G, wave 8): a successful run has passed Print or Delete for every initial package (G10, G31: no package is skipped), and the plugins are ordered by the prefixes of this run (G8: every prefix is set before the plugins are constructed and sorted).",
 		assumptions: append([]string{"a compare helper / Compare method / strings.Compare / bytes.Compare returns the sign of the ordering of its two operands"}, commonAssumptions...),
 		technique:   "abstract interpretation of the compare generator into residual programs + abstract evaluation of each residual over a finite ordering table; AST/guard-set lints",
 	}
 	checks["C04"] = &checkDef{
 		run:         func(c *Ctx) { premises(c); runR_C04(c) },
-		explanation: "Engine R on the hash plugin: every residual (R16) reaches map entries only through sort(keys(m)); (R-input) reads nothing but the value: no package-level state, no package other than math.Float32bits/Float64bits, no cap/uintptr/%p, no helper other than hash/sort/keys, a pointer operand is only nil-tested, dereferenced or handed to a hash helper; (R10) writes nothing through its argument; (R7) dereferences are nil-guarded; (R17) leaf-table contradiction: a bit-injective leaf function over a kind whose Equal leaf is the coarser `==`, and nil-vs-empty seeds against a nil-blind Equal leaf. Not decided: collision quality, user Hash methods, that Equal implies equal inputs to the fold beyond the listed mechanisms. Since wave 6: float bits are hashed only after canonicalising the sign of zero (x+0 or a zero guard) (R17); nil and empty slices hash apart only where Equal tells them apart. Premises shared by every property about emitted code (Engine G, wave 8): a successful run has passed Print or Delete for every initial package (G10, G31: no package is skipped), and a call is handled by the plugin whose current prefix is the longest match (G8: prefixes are set before the plugins are sorted; first match over the sorted list).",
+		explanation: "Engine R on the hash plugin: every residual (R16) reaches map entries only through sort(keys(m)); (R-input) reads nothing but the value: no package-level state, no package other than math.Float32bits/Float64bits, no cap/uintptr/%p, no helper other than hash/sort/keys, a pointer operand is only nil-tested, dereferenced or handed to a hash helper; (R10) writes nothing through its argument; (R7) dereferences are nil-guarded; (R17) leaf-table contradiction: a bit-injective leaf function over a kind whose Equal leaf is the coarser `==`, and nil-vs-empty seeds against a nil-blind Equal leaf. Not decided: collision quality, user Hash methods, that Equal implies equal inputs to the fold beyond the listed mechanisms. Since wave 6: float bits are hashed only after canonicalising the sign of zero (x+0 or a zero guard) (R17); nil and empty slices hash apart only where Equal tells them apart. Premises shared by every property about emitted code (Engine G, wave 8): a successful run has passed Print or Delete for every initial package (G10, G31: no package is skipped), and the plugins are ordered by the prefixes of this run (G8: every prefix is set before the plugins are constructed and sorted).",
 		assumptions: append([]string{"math.Float32bits/Float64bits are bit-injective and == on floats identifies +0 and -0 (Go specification facts frozen in the checker)"}, commonAssumptions...),
 		technique:   "abstract interpretation of the hash generator into residual programs + AST lints (input whitelist, ordered-map-traversal, leaf-table contradiction)",
 	}
 	checks["C05"] = &checkDef{
 		run:         func(c *Ctx) { premises(c); runR_C05(c) },
-		explanation: "Engine R on deepcopy and clone: (R10) only dst-rooted locations are written; (R11 copy-taint) a src-rooted value reaches dst by plain assignment / *dst = *src / copy() only on paths where the generator established canCopy for exactly that component's type (resolved through the symbolic type graph), helper and method calls are (dst, src) / src.DeepCopy(dst) on mirror components; every nilable component is set to nil exactly under src==nil and freshly allocated (new/make) under src!=nil before it is filled; the destination-slice reuse code is evaluated over {dst nil?, len(dst)?len(src), cap(dst)>=len(src)}: every consistent row must end non-nil with equal length and no reslice beyond capacity; (R19) every field is copied; clone = nil-propagation + fresh allocation + deepcopy(dst, src). G9 tabulates canCopy. Not decided: value equality of the copy, user DeepCopy methods, aliasing inside the prior destination. Premises shared by every property about emitted code (Engine G, wave 8): a successful run has passed Print or Delete for every initial package (G10, G31: no package is skipped), and a call is handled by the plugin whose current prefix is the longest match (G8: prefixes are set before the plugins are sorted; first match over the sorted list).",
+		explanation: "Engine R on deepcopy and clone: (R10) only dst-rooted locations are written; (R11 copy-taint) a src-rooted value reaches dst by plain assignment / *dst = *src / copy() only on paths where the generator established canCopy for exactly that component's type (resolved through the symbolic type graph), helper and method calls are (dst, src) / src.DeepCopy(dst) on mirror components; every nilable component is set to nil exactly under src==nil and freshly allocated (new/make) under src!=nil before it is filled; the destination-slice reuse code is evaluated over {dst nil?, len(dst)?len(src), cap(dst)>=len(src)}: every consistent row must end non-nil with equal length and no reslice beyond capacity; (R19) every field is copied; clone = nil-propagation + fresh allocation + deepcopy(dst, src). G9 tabulates canCopy. Not decided: value equality of the copy, user DeepCopy methods, aliasing inside the prior destination. Premises shared by every property about emitted code (Engine G, wave 8): a successful run has passed Print or Delete for every initial package (G10, G31: no package is skipped), and the plugins are ordered by the prefixes of this run (G8: every prefix is set before the plugins are constructed and sorted).",
 		assumptions: commonAssumptions,
 		technique:   "abstract interpretation of the deepcopy/clone generators into residual programs + taint/guard-set analyses and a finite resize-state table; predicate tabulation",
 	}
 	checks["C13"] = &checkDef{
 		run:         func(c *Ctx) { premises(c); runR_C13(c) },
-		explanation: "Engine R on sort/keys/min/max: sort sorts its own argument in place with package sort and returns it; sort.Strings/Ints/Float64s only on paths that established the exact basic type; sort.Slice's less function is tabulated over element-pair orderings (irreflexive, asymmetric, ascending; indexes only the sorted slice; mirror operands in (i, j) order). keys ranges over the map, appends every range key exactly once unconditionally and returns that slice. min/max: two-value forms tabulated (returns the preceding / following argument); list forms: early return of the default only for an empty list, accumulator seeded and replaced only by list elements, replaced exactly when the new element precedes (min) / follows (max) it and by that very element; min and max residuals mirror each other (R9). R5b: `<`/`>` between values only after an ordered basic kind was established. Not decided: that sort.Slice sorts (stdlib), permutation-ness beyond in-place stdlib sort. Added: two-value form of min/max only under types.Identical. Premises shared by every property about emitted code (Engine G, wave 8): a successful run has passed Print or Delete for every initial package (G10, G31: no package is skipped), and a call is handled by the plugin whose current prefix is the longest match (G8: prefixes are set before the plugins are sorted; first match over the sorted list).",
+		explanation: "Engine R on sort/keys/min/max: sort sorts its own argument in place with package sort and returns it; sort.Strings/Ints/Float64s only on paths that established the exact basic type; sort.Slice's less function is tabulated over element-pair orderings (irreflexive, asymmetric, ascending; indexes only the sorted slice; mirror operands in (i, j) order). keys ranges over the map, appends every range key exactly once unconditionally and returns that slice. min/max: two-value forms tabulated (returns the preceding / following argument); list forms: early return of the default only for an empty list, accumulator seeded and replaced only by list elements, replaced exactly when the new element precedes (min) / follows (max) it and by that very element; min and max residuals mirror each other (R9). R5b: `<`/`>` between values only after an ordered basic kind was established. Not decided: that sort.Slice sorts (stdlib), permutation-ness beyond in-place stdlib sort. Added: two-value form of min/max only under types.Identical. Premises shared by every property about emitted code (Engine G, wave 8): a successful run has passed Print or Delete for every initial package (G10, G31: no package is skipped), and the plugins are ordered by the prefixes of this run (G8: every prefix is set before the plugins are constructed and sorted).",
 		assumptions: append([]string{"a compare helper returns the sign of the ordering of its operands; package sort sorts"}, commonAssumptions...),
 		technique:   "abstract interpretation into residual programs + ordering-table evaluation of less/min/max decisions + structural loop rules",
 	}
 	checks["C14"] = &checkDef{
 		run:         func(c *Ctx) { premises(c); runR_C14(c) },
-		explanation: "Engine R on contains/unique/set/union/intersect/filter/takewhile/all/any: guard→effect obligations on each residual, decided with the guard set (conditions with polarity that hold at a statement: enclosing ifs and negations of earlier leaving ifs). contains: `return true` only under an equality test (== licensed by canEqual, else the derived equal helper) of the current element and the item, `return false` only after the loop; union/intersect: the single append/insert is of the current element, into the right result, only under ¬contains(this, v) / contains(that, v) / a comma-ok lookup; filter: slot write list[j]=list[i] and j++ only under predicate(elem), result list[:j]; takewhile: break only under ¬predicate, append only under predicate; all/any: inner/outer constants and polarity; predicate called exactly once per iteration on the range element, forward range; set inserts every element; unique: membership only through derived Equal against an element drawn from the bucket of the element's own derived Hash, write cursor/slot/table updated only for first occurrences, the table records the write cursor. Inputs are not written except by the documented in-place helpers. G9 tabulates contains.canEqual and derive.IsComparable. Not decided: set semantics as such, order of keys(set(..)). Added: contains leaves an iteration only after comparing the element; Hash/Equal lookups tabulated. Since wave 6: a nil map is never inserted into (union: the result map is made when the first argument is nil); contains.canEqual asks for Equal methods (G9). Premises shared by every property about emitted code (Engine G, wave 8): a successful run has passed Print or Delete for every initial package (G10, G31: no package is skipped), and a call is handled by the plugin whose current prefix is the longest match (G8: prefixes are set before the plugins are sorted; first match over the sorted list).",
+		explanation: "Engine R on contains/unique/set/union/intersect/filter/takewhile/all/any: guard→effect obligations on each residual, decided with the guard set (conditions with polarity that hold at a statement: enclosing ifs and negations of earlier leaving ifs). contains: `return true` only under an equality test (== licensed by canEqual, else the derived equal helper) of the current element and the item, `return false` only after the loop; union/intersect: the single append/insert is of the current element, into the right result, only under ¬contains(this, v) / contains(that, v) / a comma-ok lookup; filter: slot write list[j]=list[i] and j++ only under predicate(elem), result list[:j]; takewhile: break only under ¬predicate, append only under predicate; all/any: inner/outer constants and polarity; predicate called exactly once per iteration on the range element, forward range; set inserts every element; unique: membership only through derived Equal against an element drawn from the bucket of the element's own derived Hash, write cursor/slot/table updated only for first occurrences, the table records the write cursor. Inputs are not written except by the documented in-place helpers. G9 tabulates contains.canEqual and derive.IsComparable. Not decided: set semantics as such, order of keys(set(..)). Added: contains leaves an iteration only after comparing the element; Hash/Equal lookups tabulated. Since wave 6: a nil map is never inserted into (union: the result map is made when the first argument is nil); contains.canEqual asks for Equal methods (G9). Premises shared by every property about emitted code (Engine G, wave 8): a successful run has passed Print or Delete for every initial package (G10, G31: no package is skipped), and the plugins are ordered by the prefixes of this run (G8: every prefix is set before the plugins are constructed and sorted).",
 		assumptions: commonAssumptions,
 		technique:   "abstract interpretation into residual programs + guard-set (polarity) effect rules on the residual ASTs; predicate tabulation",
 	}
 	checks["C15"] = &checkDef{
 		run:         func(c *Ctx) { premises(c); runR_C15(c) },
-		explanation: "Engine R on curry/uncurry/flip/apply/tuple for every naming of the parameters (named, blank, unnamed) and 0..2 results at arities up to the bound: (R14) the innermost closure references the original function exactly once, calls it with its own parameter names in order (and, for uncurry, the returned function with its parameters), returns the results unchanged; the closure binders are exactly the parameters, each once, in the transformed order (curry: first | rest; flip: first two swapped; apply: last pre-bound; uncurry: outer ++ inner); tuple returns its arguments in order; hygiene: a template-literal identifier referenced under user-named binders is a capture hazard; (R4) each residual is type-checked with pairwise distinct opaque parameter types — since the generators never inspect those types, this decides positional correctness for all types; (R1) blank/unnamed parameters must still give parsable output. Not decided: runtime behaviour of f, variadic signatures. Since wave 6: named results may be blank in the abstract input space (a blank result must not be renamed into a clash). Premises shared by every property about emitted code (Engine G, wave 8): a successful run has passed Print or Delete for every initial package (G10, G31: no package is skipped), and a call is handled by the plugin whose current prefix is the longest match (G8: prefixes are set before the plugins are sorted; first match over the sorted list).",
+		explanation: "Engine R on curry/uncurry/flip/apply/tuple for every naming of the parameters (named, blank, unnamed) and 0..2 results at arities up to the bound: (R14) the innermost closure references the original function exactly once, calls it with its own parameter names in order (and, for uncurry, the returned function with its parameters), returns the results unchanged; the closure binders are exactly the parameters, each once, in the transformed order (curry: first | rest; flip: first two swapped; apply: last pre-bound; uncurry: outer ++ inner); tuple returns its arguments in order; hygiene: a template-literal identifier referenced under user-named binders is a capture hazard; (R4) each residual is type-checked with pairwise distinct opaque parameter types — since the generators never inspect those types, this decides positional correctness for all types; (R1) blank/unnamed parameters must still give parsable output. Not decided: runtime behaviour of f, variadic signatures. Since wave 6: named results may be blank in the abstract input space (a blank result must not be renamed into a clash). Premises shared by every property about emitted code (Engine G, wave 8): a successful run has passed Print or Delete for every initial package (G10, G31: no package is skipped), and the plugins are ordered by the prefixes of this run (G8: every prefix is set before the plugins are constructed and sorted).",
 		assumptions: commonAssumptions,
 		technique:   "abstract interpretation into residual programs + structural plumbing rules + go/types check of residuals under distinct opaque types (parametricity)",
 	}
 	checks["C16"] = &checkDef{
 		run:         func(c *Ctx) { premises(c); runR_C16(c) },
-		explanation: "Engine R on compose, the error forms of fmap and join, traverse and toerror, for 2..3 stages x 0..2 intermediate/final results (arity bounds) and every zero-value kind: (R13) every stage function is called exactly once, in straight-line code, in data-flow order, with exactly the values the previous step produced, in order; each failing-capable stage's error variable is tested immediately after the call and the failure branch returns that very variable with only zero literals next to it; a failing-capable stage is never tail-called or called inside a function literal; the success path returns the last stage's values and nil. traverse: f once per element on the range element, result stored at the element's index, `return nil, err` immediately after the call. toerror: f once with the closure's parameters in order, other results passed through unchanged, nil only under success and the supplied error only under ¬success. derive.Zero is tabulated over go/types kinds (nil only for nilable underlying kinds). Not decided: identity of error objects at run time beyond variable identity, user function behaviour. Added: nil error only where the supplied error was established nil. Premises shared by every property about emitted code (Engine G, wave 8): a successful run has passed Print or Delete for every initial package (G10, G31: no package is skipped), and a call is handled by the plugin whose current prefix is the longest match (G8: prefixes are set before the plugins are sorted; first match over the sorted list).",
+		explanation: "Engine R on compose, the error forms of fmap and join, traverse and toerror, for 2..3 stages x 0..2 intermediate/final results (arity bounds) and every zero-value kind: (R13) every stage function is called exactly once, in straight-line code, in data-flow order, with exactly the values the previous step produced, in order; each failing-capable stage's error variable is tested immediately after the call and the failure branch returns that very variable with only zero literals next to it; a failing-capable stage is never tail-called or called inside a function literal; the success path returns the last stage's values and nil. traverse: f once per element on the range element, result stored at the element's index, `return nil, err` immediately after the call. toerror: f once with the closure's parameters in order, other results passed through unchanged, nil only under success and the supplied error only under ¬success. derive.Zero is tabulated over go/types kinds (nil only for nilable underlying kinds). Not decided: identity of error objects at run time beyond variable identity, user function behaviour. Added: nil error only where the supplied error was established nil. Premises shared by every property about emitted code (Engine G, wave 8): a successful run has passed Print or Delete for every initial package (G10, G31: no package is skipped), and the plugins are ordered by the prefixes of this run (G8: every prefix is set before the plugins are constructed and sorted).",
 		assumptions: commonAssumptions,
 		technique:   "abstract interpretation into residual programs + straight-line chain analysis and guard-set rules on the residual ASTs; tabulation of derive.Zero",
 	}
 	checks["C17"] = &checkDef{
 		run:         func(c *Ctx) { premises(c); runR_C17(c) },
-		explanation: "Engine R on the slice/string forms of fmap and the slice/strings forms of join: fmap ranges forward over the input (for strings over []rune(s), never over the string itself, whose range index is a byte offset), calls f exactly once per iteration on the range element, stores the result at out[range key], makes the output with the length of the very operand it ranges over, has no early exit and returns that slice; join of slices returns nil for nil, collects into a freshly made slice (never an input's backing array), appends every inner list unconditionally in range order with `...`, no early exit; join of strings is strings.Join with the empty separator; inputs are not written (R10). Not decided: f's behaviour, capacity arithmetic. Premises shared by every property about emitted code (Engine G, wave 8): a successful run has passed Print or Delete for every initial package (G10, G31: no package is skipped), and a call is handled by the plugin whose current prefix is the longest match (G8: prefixes are set before the plugins are sorted; first match over the sorted list).",
+		explanation: "Engine R on the slice/string forms of fmap and the slice/strings forms of join: fmap ranges forward over the input (for strings over []rune(s), never over the string itself, whose range index is a byte offset), calls f exactly once per iteration on the range element, stores the result at out[range key], makes the output with the length of the very operand it ranges over, has no early exit and returns that slice; join of slices returns nil for nil, collects into a freshly made slice (never an input's backing array), appends every inner list unconditionally in range order with `...`, no early exit; join of strings is strings.Join with the empty separator; inputs are not written (R10). Not decided: f's behaviour, capacity arithmetic. Premises shared by every property about emitted code (Engine G, wave 8): a successful run has passed Print or Delete for every initial package (G10, G31: no package is skipped), and the plugins are ordered by the prefixes of this run (G8: every prefix is set before the plugins are constructed and sorted).",
 		assumptions: commonAssumptions,
 		technique:   "abstract interpretation into residual programs + structural loop/effect rules on the residual ASTs",
 	}
 	checks["C18"] = &checkDef{
 		run:         func(c *Ctx) { premises(c); runR_C18(c) },
-		explanation: "Engine R on mem for parameter arities 0..2 x result arities 0..2, comparable and not, every parameter naming: (R15) the returned closure contains exactly one call of f, with its own parameters in order, at the top level of its body (the miss path); the table is created once outside the closure; it is keyed by the argument (or an input struct of all arguments in order) only on paths where IsComparable was established, otherwise by the derived hash of that key, and then a hit requires derived Equal of a stored key with the arguments among the entries of that very bucket; every return before the call is under such a hit; after the call the results are stored under the key that was looked up — in the bucket form by appending to the current table entry, never to a snapshot taken before f ran — and returned in order; zero-argument form: a flag initially false guards the call and is set after it. G9 tabulates derive.IsComparable. Not decided: the hash/equal contract itself (C04), concurrency (not promised). Added: Hash/Equal lookups tabulated; hash float-leaf rule (known finding shared with C04). Since wave 6: R17's zero canonicalisation (repaired: +0/-0 are memoised once). Premises shared by every property about emitted code (Engine G, wave 8): a successful run has passed Print or Delete for every initial package (G10, G31: no package is skipped), and a call is handled by the plugin whose current prefix is the longest match (G8: prefixes are set before the plugins are sorted; first match over the sorted list).",
+		explanation: "Engine R on mem for parameter arities 0..2 x result arities 0..2, comparable and not, every parameter naming: (R15) the returned closure contains exactly one call of f, with its own parameters in order, at the top level of its body (the miss path); the table is created once outside the closure; it is keyed by the argument (or an input struct of all arguments in order) only on paths where IsComparable was established, otherwise by the derived hash of that key, and then a hit requires derived Equal of a stored key with the arguments among the entries of that very bucket; every return before the call is under such a hit; after the call the results are stored under the key that was looked up — in the bucket form by appending to the current table entry, never to a snapshot taken before f ran — and returned in order; zero-argument form: a flag initially false guards the call and is set after it. G9 tabulates derive.IsComparable. Not decided: the hash/equal contract itself (C04), concurrency (not promised). Added: Hash/Equal lookups tabulated; hash float-leaf rule (known finding shared with C04). Since wave 6: R17's zero canonicalisation (repaired: +0/-0 are memoised once). Premises shared by every property about emitted code (Engine G, wave 8): a successful run has passed Print or Delete for every initial package (G10, G31: no package is skipped), and the plugins are ordered by the prefixes of this run (G8: every prefix is set before the plugins are constructed and sorted).",
 		assumptions: commonAssumptions,
 		technique:   "abstract interpretation into residual programs + guard-set protocol rules on the residual ASTs; predicate tabulation",
 	}
 	checks["C19"] = &checkDef{
 		run:         func(c *Ctx) { premises(c); runR_C19(c) },
-		explanation: "Engine R on fmap-over-channel, the channel forms of join (slice of channels, channel of channels, variadic select; both channel directions), dup and pipeline: typestate/pairing rules on the residual CFGs and closure tree. T1 every channel made and returned is closed at exactly one site, in a goroutine, outside any loop, on every path of that goroutine (post-dominance; defer accepted); T2 no send reachable after the close in the same goroutine; T3 every other sending goroutine is counted by Add before its go statement (dominance in the spawner), calls Done on every path, and Wait dominates the close, with no spawn reachable after Wait; T4 each receive loop forwards the received item (or f of it) exactly once on every output, unconditionally, without break/return; T5 the combinator's own body performs no blocking channel operation; T6 select form: the loop runs while some input is non-nil over exactly the selected inputs, each case disables only its own input and only when it was found closed, and sends only when it was not; T7 goroutines spawned in a loop do not refer to the loop variables directly; T8 a variable written in a goroutine is not used by another goroutine; pipeline is exactly join(fmap(g, f(a))). Not decided: an exploration of interleavings, global deadlock freedom, buffer-capacity effects, goroutine leaks when consumers stop. Added: after Add(1) no path reaches the next Add or the Wait without the go statement. Premises shared by every property about emitted code (Engine G, wave 8): a successful run has passed Print or Delete for every initial package (G10, G31: no package is skipped), and a call is handled by the plugin whose current prefix is the longest match (G8: prefixes are set before the plugins are sorted; first match over the sorted list).",
+		explanation: "Engine R on fmap-over-channel, the channel forms of join (slice of channels, channel of channels, variadic select; both channel directions), dup and pipeline: typestate/pairing rules on the residual CFGs and closure tree. T1 every channel made and returned is closed at exactly one site, in a goroutine, outside any loop, on every path of that goroutine (post-dominance; defer accepted); T2 no send reachable after the close in the same goroutine; T3 every other sending goroutine is counted by Add before its go statement (dominance in the spawner), calls Done on every path, and Wait dominates the close, with no spawn reachable after Wait; T4 each receive loop forwards the received item (or f of it) exactly once on every output, unconditionally, without break/return; T5 the combinator's own body performs no blocking channel operation; T6 select form: the loop runs while some input is non-nil over exactly the selected inputs, each case disables only its own input and only when it was found closed, and sends only when it was not; T7 goroutines spawned in a loop do not refer to the loop variables directly; T8 a variable written in a goroutine is not used by another goroutine; pipeline is exactly join(fmap(g, f(a))). Not decided: an exploration of interleavings, global deadlock freedom, buffer-capacity effects, goroutine leaks when consumers stop. Added: after Add(1) no path reaches the next Add or the Wait without the go statement. Premises shared by every property about emitted code (Engine G, wave 8): a successful run has passed Print or Delete for every initial package (G10, G31: no package is skipped), and the plugins are ordered by the prefixes of this run (G8: every prefix is set before the plugins are constructed and sorted).",
 		assumptions: append([]string{"Go memory model: channel operations and WaitGroup provide the happens-before edges the rules pair up"}, commonAssumptions...),
 		technique:   "abstract interpretation into residual programs + channel/WaitGroup typestate and pairing rules on go/cfg graphs (dominance, post-dominance, reachability) of the residual closures",
 	}
@@ -116,7 +116,7 @@ func init() {
 			g30GeneratorStateless(c.Repo, c.Rep)
 			runR_C20(c)
 		},
-		explanation: "Engine R on do for n = 2, 3 (thorough: up to 4): every argument function is called exactly once and only inside its own goroutine (never on the caller's goroutine); all go statements dominate the first completion receive and none is reachable after it (start-all-before-wait); each goroutine stores its result before its single completion send, which is on every path and carries its own function's error; the caller receives exactly n completions, n = number of goroutines = number of functions; result slots are written by exactly one goroutine and read only after the receive loop; the returned error is assigned only from a received non-nil value and only while it is still nil; no variable written in a goroutine is used by another goroutine (T8). Not decided: scheduler fairness, panicking functions. Since wave 6: generator structs are written only by their constructor (G30: nothing carries over from one generated function to the next). Premises shared by every property about emitted code (Engine G, wave 8): a successful run has passed Print or Delete for every initial package (G10, G31: no package is skipped), and a call is handled by the plugin whose current prefix is the longest match (G8: prefixes are set before the plugins are sorted; first match over the sorted list).",
+		explanation: "Engine R on do for n = 2, 3 (thorough: up to 4): every argument function is called exactly once and only inside its own goroutine (never on the caller's goroutine); all go statements dominate the first completion receive and none is reachable after it (start-all-before-wait); each goroutine stores its result before its single completion send, which is on every path and carries its own function's error; the caller receives exactly n completions, n = number of goroutines = number of functions; result slots are written by exactly one goroutine and read only after the receive loop; the returned error is assigned only from a received non-nil value and only while it is still nil; no variable written in a goroutine is used by another goroutine (T8). Not decided: scheduler fairness, panicking functions. Since wave 6: generator structs are written only by their constructor (G30: nothing carries over from one generated function to the next). Premises shared by every property about emitted code (Engine G, wave 8): a successful run has passed Print or Delete for every initial package (G10, G31: no package is skipped), and the plugins are ordered by the prefixes of this run (G8: every prefix is set before the plugins are constructed and sorted).",
 		assumptions: append([]string{"Go memory model: a send happens before the corresponding receive completes"}, commonAssumptions...),
 		technique:   "abstract interpretation into residual programs + goroutine typestate/pairing rules on go/cfg graphs of the residual closures",
 	}
@@ -126,7 +126,7 @@ func init() {
 			g28BypassQualifier(c.Repo, c.Rep)
 			runR_C06(c)
 		},
-		explanation: "Engine R on gostring — second-stage well-formedness: for every residual the fmt.Fprintf statements are walked along every structured path (each if both ways, each loop 0/1 times; thorough 0/1/2), their format strings concatenated with verbs replaced by placeholders (%#v a value, %d the iteration number, %s a nested derived GoString call); on every path the printed text must parse as an immediately invoked `func() T { … }()`, use only identifiers it declared before, and end in a return; type names in printed text come from the package-qualifying (bypass) printer while the function's own signature uses the ordinary one; a type printed under a pointer constructor (*T, new(T), &T{}) is the component's declared type, never its Underlying(); %s operands are nested gostring calls and values use %#v; a nil pointer/slice/map is printed as `return nil`; every field of an inlined struct is printed (R19). Not decided: %#v's escaping (stdlib), value round-trip, unexported fields. Added: %#v on a composite only when every component was established basic (also on duplicate-text runs). Since wave 6: every literal the emitted code returns for a typed value parses as an expression of that type's shape (a bare nil is not); the qualifier of an imported type is the package's name (G28); field rendering consults Embedded() or delegates to go/types (G25). Premises shared by every property about emitted code (Engine G, wave 8): a successful run has passed Print or Delete for every initial package (G10, G31: no package is skipped), and a call is handled by the plugin whose current prefix is the longest match (G8: prefixes are set before the plugins are sorted; first match over the sorted list).",
+		explanation: "Engine R on gostring — second-stage well-formedness: for every residual the fmt.Fprintf statements are walked along every structured path (each if both ways, each loop 0/1 times; thorough 0/1/2), their format strings concatenated with verbs replaced by placeholders (%#v a value, %d the iteration number, %s a nested derived GoString call); on every path the printed text must parse as an immediately invoked `func() T { … }()`, use only identifiers it declared before, and end in a return; type names in printed text come from the package-qualifying (bypass) printer while the function's own signature uses the ordinary one; a type printed under a pointer constructor (*T, new(T), &T{}) is the component's declared type, never its Underlying(); %s operands are nested gostring calls and values use %#v; a nil pointer/slice/map is printed as `return nil`; every field of an inlined struct is printed (R19). Not decided: %#v's escaping (stdlib), value round-trip, unexported fields. Added: %#v on a composite only when every component was established basic (also on duplicate-text runs). Since wave 6: every literal the emitted code returns for a typed value parses as an expression of that type's shape (a bare nil is not); the qualifier of an imported type is the package's name (G28); field rendering consults Embedded() or delegates to go/types (G25). Premises shared by every property about emitted code (Engine G, wave 8): a successful run has passed Print or Delete for every initial package (G10, G31: no package is skipped), and the plugins are ordered by the prefixes of this run (G8: every prefix is set before the plugins are constructed and sorted).",
 		assumptions: commonAssumptions,
 		technique:   "abstract interpretation into residual programs + path-wise assembly and go/parser analysis of the text the residual prints (two-stage well-formedness)",
 	}
@@ -263,9 +263,6 @@ func premises(c *Ctx) {
 	} else {
 		c.Rep.fail(Finding{Rule: "G8", Key: "G8|main-missing", Kind: "undecided", Msg: "main.main not found"})
 	}
-	g8Sort(c.Repo, c.Rep)
-	g8Dispatch(c.Repo, c.Rep)
-	g8PluginOrderFixed(c.Repo, c.Rep)
 }
 
 func g8Registry(c *Ctx) {
